@@ -634,7 +634,8 @@ def run_property(chk, prop, laws, quick_gen=300, thorough_gen=4000, scns=None, n
         probs = pr["probs"]
         if expect is not None:
             probs = probs + expect.post(pr["scn"], pr["fv"], pr["pre"], mo)
-        if skip_multi and not pr["hand"] and mo is not None and mo.get("tieFail" if pr["kind"] == "canonical" else "multiFail"):
+        if (skip_multi or pr["scn"].extra.get("tie_only")) and not pr["hand"] and mo is not None and \
+                mo.get("tieFail" if pr["kind"] == "canonical" else "multiFail"):
             chk.dist("skipped.multiple_failures(C06)")
             continue
         if pr["hist"] is not None and mo is not None:
